@@ -345,16 +345,36 @@ impl<'a> Gen<'a> {
             9 => {
                 // named let
                 self.tag("named-let");
-                let lp = self.fresh("nl");
+                let mut lp = self.fresh("nl");
                 let n = self.rng.range(0, 6);
                 let mut inner = scope.clone();
+                // one time in three the tag shadows an integer variable that the second init reads:
+                // the inits are outside the tag's scope, the body is inside
+                let ints: Vec<String> = scope.vars.iter().filter(|v| v.ty == Ty::Int).map(|v| v.name.clone()).collect();
+                let mut shadowed: Option<String> = None;
+                if !ints.is_empty() && self.rng.chance(1, 3) {
+                    let v = self.rng.pick(&ints).clone();
+                    inner.vars.retain(|x| x.name != v);
+                    lp = v.clone();
+                    shadowed = Some(v);
+                    self.tag("named-let-tag-shadows-variable-used-in-init");
+                }
                 inner.vars.push(Var { name: "i".into(), ty: Ty::Int, mutable: false });
                 inner.vars.push(Var { name: "acc".into(), ty: Ty::Int, mutable: false });
                 let step = self.expr(Ty::Int, &inner, d.min(2));
                 list(vec![
                     sym("let"),
                     sym(&lp),
-                    list(vec![list(vec![sym("i"), int(n)]), list(vec![sym("acc"), self.expr(Ty::Int, scope, d)])]),
+                    list(vec![
+                        list(vec![sym("i"), int(n)]),
+                        list(vec![
+                            sym("acc"),
+                            match &shadowed {
+                                Some(v) => call("+", vec![sym(v), self.expr(Ty::Int, scope, d)]),
+                                None => self.expr(Ty::Int, scope, d),
+                            },
+                        ]),
+                    ]),
                     list(vec![sym("if"), call("=", vec![sym("i"), int(0)]), sym("acc"), call(&lp, vec![call("-", vec![sym("i"), int(1)]), call("+", vec![sym("acc"), step])])]),
                 ])
             }
